@@ -1,6 +1,8 @@
 #!/bin/sh
-# Build everything from files on disk only (offline).
+# Build everything from files on disk only (offline).  VERIF_REPO (default /repo) is the repository under test.
 set -e
-python3 /verif/tools/extract_tables.py /repo
-cd /verif/lean && lake build
-cd /verif/harness && cp /repo/Cargo.lock Cargo.lock && CARGO_NET_OFFLINE=true cargo build --offline && CARGO_NET_OFFLINE=true cargo build --offline --release
+V=$(cd "$(dirname "$0")" && pwd)
+R=${VERIF_REPO:-/repo}
+python3 "$V/tools/extract_tables.py" "$R"
+cd "$V/lean" && lake build
+cd "$V/harness" && cp "$R/Cargo.lock" Cargo.lock && CARGO_NET_OFFLINE=true cargo build --offline && CARGO_NET_OFFLINE=true cargo build --offline --release
